@@ -56,6 +56,11 @@ def opsTrav (op : String) (a : List String) : Option String :=
     match gridDiskDistancesUnsafe h k with
     | (some e, _, _) => pure ("err " ++ toString e.code)
     | (none, o, d) => pure ("ok " ++ showPairs o d)
+  | "disksunsafe", k :: n :: cs => do
+    let k ← parseInt k; let n ← parseInt n
+    if n != (cs.length : Int) then none
+    let cs ← cs.mapM parseH
+    pure (showR showArr (gridDisksUnsafe cs k))
   | "ring", [h, k] => do
     let h ← parseH h; let k ← parseInt k
     match gridRingUnsafe h k with
